@@ -69,8 +69,17 @@ def obj_key(o):
 class Driver:
     """Executes abstract calls on a real mock connection and records events."""
 
-    def __init__(self, variant=0):
-        self.conn = mockrepo.fresh()
+    def __init__(self, variant=0, wire=False):
+        # wire=True: a real WBEMConnection talks CIM-XML to the mock through
+        # harness/facade.py, so that the client-side response processing
+        # (_get_rslt_params, _validate_context ...) is in the loop
+        self.srv = mockrepo.fresh()
+        self.wire = wire
+        if wire:
+            import facade
+            self.conn, self.facade = facade.wire_connection(self.srv, NS1)
+        else:
+            self.conn = self.srv
         self.ctx_ids = {}       # server context string -> abstract id
         self.ctx_tuples = {}    # abstract id -> (server_ctx, ns) tuple
         self.events = []
@@ -81,7 +90,7 @@ class Driver:
 
     def nctx(self):
         try:
-            return len(self.conn._mainprovider.enumeration_contexts)
+            return len(self.srv._mainprovider.enumeration_contexts)
         except AttributeError:
             return -1
 
@@ -216,10 +225,9 @@ class Driver:
     def do_remove_ns(self, nsid):
         if nsid != 2:
             return None
-        if NS2.lower() not in [n.lower() for n in self.conn.namespaces]:
+        if NS2.lower() not in [n.lower() for n in self.srv.namespaces]:
             return None
-        off = bool(self.conn.disable_pull_operations)
-        mockrepo.empty_and_remove_namespace(self.conn, NS2)
+        mockrepo.empty_and_remove_namespace(self.srv, NS2)
         self.calls.append({"op": "remove_namespace", "ns": NS2})
         ev = dict(op="RemoveNs", k=0, ns=2, all=[], tradok=True, m=0, id=0,
                   ok=True, code=0, objs=[], eos=False, ctx=0, nctx=self.nctx())
@@ -227,7 +235,7 @@ class Driver:
         return ev
 
     def do_setpull(self, on):
-        self.conn.disable_pull_operations = not on
+        self.srv.disable_pull_operations = not on
         self.calls.append({"op": "disable_pull_operations", "value": not on})
         ev = dict(op="SetPull", k=0, ns=0, all=[], tradok=True, m=0, id=0,
                   ok=bool(on), code=0, objs=[], eos=False, ctx=0,
@@ -253,7 +261,7 @@ class Driver:
     def epilogue(self):
         """Behavioural NoLeak: close what is open, then every context ever
         issued must be refused by Pull and by CloseEnumeration."""
-        if self.conn.disable_pull_operations:
+        if self.srv.disable_pull_operations:
             self.do_setpull(True)
         for aid in sorted(self.ctx_tuples):
             self.do_close(aid)
@@ -262,8 +270,8 @@ class Driver:
             self.do_close(aid)
 
 
-def random_trace(rng, variant):
-    d = Driver(variant)
+def random_trace(rng, variant, wire=False):
+    d = Driver(variant, wire)
     n_ops = rng.randint(3, 14)
     for _ in range(n_ops):
         open_ids = sorted(d.ctx_tuples)
@@ -292,8 +300,8 @@ def random_trace(rng, variant):
     return d
 
 
-def run_calls(calls, variant=0):
-    d = Driver(variant)
+def run_calls(calls, variant=0, wire=False):
+    d = Driver(variant, wire)
     for c in calls:
         d.do_call(c)
     d.epilogue()
@@ -347,12 +355,14 @@ def run(ctx):
         "PullSrvImpl", "PullSrvImplSim.cfg", nsim, 11,
         label="behaviour emission (7 open kinds, 2 namespaces)")
     for i, b in enumerate(behs):
-        drivers.append(run_calls(b, variant=i))
+        drivers.append(run_calls(b, variant=i, wire=(i % 3 == 0)))
     ctx.extra["tlc_behaviours_replayed"] = len(behs)
     # ---- 4. code -> spec: seeded random histories ---------------------------
     nrand = 1000 if quick else 20000
     for i in range(nrand):
-        drivers.append(random_trace(ctx.rng, i))
+        drivers.append(random_trace(ctx.rng, i, wire=(i % 4 == 0)))
+    ctx.extra["traces_through_cimxml_facade"] = sum(
+        1 for d in drivers if d.wire)
     if mockrepo.template() is not None:
         import pywbem_mock.config as mcfg
         if getattr(mcfg, "DEFAULT_MAX_OBJECT_COUNT", 100) != 100:
